@@ -316,6 +316,114 @@ def run_stdio(ctl: explorer.Ctl, cfg: Dict[str, Any]) -> Dict[str, Any]:
     return {"outcome": "/".join(summary), "violations": viol}
 
 
+# ---------------------------------------------------------------------------
+# per-request streams of the stdio client (new_request_stream + send_json): the library's own demultiplexer
+# ---------------------------------------------------------------------------
+RUN_PR = "vf.checks.c18:run_per_request"
+PR_IDS = {"zero": 0, "empty": "", "str": "a", "int": 7, "digits": "7", "neg": -1}
+
+
+def run_per_request(ctl: explorer.Ctl, cfg: Dict[str, Any]) -> Dict[str, Any]:
+    import asyncio
+    import itertools
+    import json
+
+    import anyio as _anyio
+    from chuk_mcp.protocol.messages.json_rpc_message import JSONRPCRequest
+    from chuk_mcp.transports.stdio.stdio_client import StdioClient
+
+    from .. import seams
+
+    ids = [PR_IDS[k] for k in cfg["ids"]]
+    k = len(ids)
+    loop = new_loop(horizon=30)
+    proc = seams.FakeProcess()
+    seen: List[Any] = []
+    st = {"answered": False}
+    buf = {"b": b""}
+    results: Dict[int, Any] = {}
+    main_stream: List[Any] = []
+
+    def on_stdin(data: bytes):
+        buf["b"] += data
+        while b"\n" in buf["b"]:
+            line, buf["b"] = buf["b"].split(b"\n", 1)
+            try:
+                d = json.loads(line.decode("utf-8"))
+            except Exception:
+                continue
+            if d.get("method") == "tools/call":
+                seen.append(d.get("id"))
+
+    proc.on_stdin = on_stdin
+    perms = list(itertools.permutations(range(k)))
+
+    def idle(lp):
+        if st["answered"] or len(seen) < k:
+            return
+        st["answered"] = True
+        order = perms[ctl.choose(len(perms), "answer-order")]
+        grouping = ctl.choose(2, "grouping")
+        lines = [(json.dumps({"jsonrpc": "2.0", "id": ids[i], "result": {"for": i}}) + "\n").encode() for i in order]
+        note = (json.dumps({"jsonrpc": "2.0", "method": "notifications/message", "params": {}}) + "\n").encode()
+        if grouping == 0:
+            proc.stdout.feed(note + b"".join(lines))
+        else:
+            for ln in lines:
+                proc.stdout.feed(ln)
+                proc.stdout.feed(note)
+
+    async def caller(i, client):
+        rs = client.new_request_stream(str(ids[i]))
+        await client.send_json(JSONRPCRequest(id=ids[i], method="tools/call", params={"who": i}))
+        try:
+            with _anyio.fail_after(1.0):
+                m = await rs.receive()
+            results[i] = ("result", m.model_dump(exclude_none=True))
+        except TimeoutError:
+            results[i] = ("timeout", None)
+        except BaseException as e:  # noqa: BLE001
+            results[i] = ("exc", type(e).__name__)
+
+    async def main():
+        with seams.patched_open_process(lambda cmd, kw: proc):
+            async with StdioClient(seams.stdio_params()) as client:
+                read, _ = client.get_streams()
+                await asyncio.gather(*[asyncio.ensure_future(caller(i, client)) for i in range(k)])
+                try:
+                    while True:
+                        main_stream.append(read.receive_nowait().model_dump(exclude_none=True))
+                except Exception:
+                    pass
+
+    loop.idle_hook = idle
+    status, val = loop.run_main(main())
+    errors = loop.collect_errors()
+    loop.abandon()
+    viol: List[dict] = []
+    if status != "ok":
+        return {"outcome": status, "violations": [{"sig": {"class": "did-not-finish", "part": "per-request"},
+                                                   "msg": f"cfg={cfg}: {status} {core.clean_repr(val)}"}]}
+    summary = []
+    for i in range(k):
+        kind, v = results.get(i, ("missing", None))
+        summary.append(kind)
+        if kind == "result":
+            if v.get("result") != {"for": i} or type(v.get("id")) is not type(ids[i]) or v.get("id") != ids[i]:
+                viol.append({"sig": {"class": "cross-talk", "part": "per-request"}, "msg": f"cfg={cfg}: caller {i} (id {ids[i]!r}) got {v}"})
+        else:
+            viol.append({"sig": {"class": "lost-response", "part": "per-request", "id_kind": cfg["ids"][i]},
+                         "msg": f"cfg={cfg}: caller {i} waiting on the request stream for id {ids[i]!r} ended with {kind}; "
+                                f"main stream saw {[m.get('id') for m in main_stream]}"})
+    got_ids = [m.get("id") for m in main_stream if "method" not in m]
+    if sorted(map(repr, got_ids)) != sorted(map(repr, ids)):
+        viol.append({"sig": {"class": "main-stream-mismatch", "part": "per-request"},
+                     "msg": f"cfg={cfg}: responses on the main read stream {got_ids}, sent {ids}"})
+    if errors:
+        viol.append({"sig": {"class": "loop-error"}, "msg": f"{errors[:2]}"})
+    return {"outcome": "/".join(summary), "violations": viol}
+
+
 def configs_for(tier: str):
     parts = {}
     parts["k2-notes2"] = [
@@ -353,6 +461,11 @@ def run(tier: str, only=None) -> core.Result:
     if not only or "stdio" in only:
         out = explorer.explore(RUN_STDIO, scfgs, fidelity=True)
         sched.absorb(res, "stdio-carrier", RUN_STDIO, out, scfgs)
+    import itertools as _it
+    prcfgs = [{"ids": list(c)} for n in (2, 3) for c in _it.combinations(PR_IDS, n) if not ({"int", "digits"} <= set(c))]
+    if not only or "per-request" in only:
+        out = explorer.explore(RUN_PR, prcfgs, fidelity=True)
+        sched.absorb(res, "per-request-streams", RUN_PR, out, prcfgs, min_outcomes=1)
     res.coverage["exhaustive"] = True
     res.coverage["rule"] = (
         "k concurrent send_message callers (k=2,3; thorough 4) on one stream pair; every order in which the server answers "
